@@ -265,6 +265,63 @@ def main():
     r = verify(contract_of(case, case['good']), [], timeout_ms=800)
     if not any(o['name'] == 'decreases:L1' and o['status'] != 'unsat' for o in r.obligations):
         failures.append('drop_evens_live: a wrong termination measure of a live loop was accepted (UNSOUND)')
+    # block contracts: the statements of a block are replaced by its contract in the enclosing proof
+    from pyvc.interp import BlockSpec
+    ints = lambda *names: (lambda cx: {n: cx.val(n, TInt) for n in names})
+    blk_c = FunctionContract(SRC, 'clamp_then_double', 'SELFTEST', short='clamp[block]', setup=ints('x', 'lo', 'hi'),
+                             region=dict(start="if x < lo:", end="z = y * 2"), locals=dict(y=TInt),
+                             requires=["lo <= hi"], ensures=["lo <= y and y <= hi", "implies(lo <= x and x <= hi, y == x)"])
+    blk = BlockSpec.of(blk_c)
+    outer = lambda req, ens: FunctionContract(SRC, 'clamp_then_double', 'SELFTEST', setup=ints('x', 'lo', 'hi'), requires=req, ensures=ens, blocks=[blk])
+    r0 = verify(blk_c, [blk_c], timeout_ms=8000)
+    r1 = verify(outer(["lo <= hi"], ["2 * lo <= result and result <= 2 * hi", "implies(lo <= x and x <= hi, result == 2 * x)"]), [blk_c], timeout_ms=8000)
+    n_ob += len(r0.obligations) + len(r1.obligations)
+    if not (r0.ok and r1.ok and any(o['name'].startswith('block-pre:') for o in r1.obligations)):
+        failures.append('block contract: a true composition was not proved: %s %s' % (r0.error or [o['name'] for o in r0.obligations if o['status'] != 'unsat'],
+                                                                                     r1.error or [o['name'] for o in r1.obligations if o['status'] != 'unsat']))
+    r2 = verify(outer([], ["2 * lo <= result"]), [blk_c], timeout_ms=2000)         # the block's precondition does not hold at its place
+    if not any(o['name'].startswith('block-pre:') and o['status'] != 'unsat' for o in r2.obligations):
+        failures.append('block contract: an unestablished block precondition was accepted (UNSOUND)')
+    r3 = verify(outer(["lo <= hi"], ["implies(x < lo, result == 2 * lo)"]), [blk_c], timeout_ms=2000)    # true of the code, not of the block contract
+    if r3.ok:
+        failures.append('block contract: the enclosing proof saw more than the block contract states (not modular)')
+    r4 = verify(outer(["lo <= hi"], ["2 * lo <= result"]), [], timeout_ms=2000)     # a block nobody proves
+    if not (r4.error and 'not proved by' in r4.error):
+        failures.append('block contract: a block without its own proof was used: %s' % r4.error)
+    div_c = FunctionContract(SRC, 'checked_div', 'SELFTEST', short='div[block]', setup=ints('a', 'b'), region=dict(start="if b == 0:", end="r = q + 1"),
+                             locals=dict(q=TInt), ensures=["b != 0 and q == a // b"], raises={'ValueError': ["b == 0"]})
+    dblk = BlockSpec.of(div_c)
+    d_out = lambda ens, rs: FunctionContract(SRC, 'checked_div', 'SELFTEST', setup=ints('a', 'b'), ensures=ens, raises=rs, blocks=[dblk])
+    r5, r6 = verify(div_c, [div_c], timeout_ms=8000), verify(d_out(["result == a // b + 1"], {'ValueError': ["b == 0"]}), [div_c], timeout_ms=8000)
+    n_ob += len(r5.obligations) + len(r6.obligations)
+    if not (r5.ok and r6.ok):
+        failures.append('block contract with an exceptional exit: not proved: %s %s' % (r5.error or r5.failed, r6.error or r6.failed))
+    r7 = verify(d_out(["result == a // b + 1"], {}), [div_c], timeout_ms=2000)      # the block may raise: the enclosing contract has to say so
+    if r7.ok:
+        failures.append('block contract: the exceptional exit of a block was lost (UNSOUND)')
+    # a local that a block assigns but its contract does not describe cannot be used afterwards (never its stale value)
+    leak_c = FunctionContract(SRC, 'block_leaks_local', 'SELFTEST', short='leak[block]', setup=ints('x'), region=dict(start="t = x + 1", end="return u + t"),
+                              locals=dict(u=TInt), ensures=["u == 2 * x + 2"])
+    r8 = verify(FunctionContract(SRC, 'block_leaks_local', 'SELFTEST', setup=ints('x'), ensures=["result >= 0 or result < 0"],
+                                 blocks=[BlockSpec.of(leak_c)]), [leak_c], timeout_ms=2000)
+    if not (r8.error and 'does not describe' in r8.error):
+        failures.append('block contract: a local assigned inside a block and not described by it was readable afterwards (UNSOUND): %s' % r8.error)
+    # ... and a block that changes a container its contract does not list in `modifies` fails its own frame obligation
+    lists = lambda cx: dict(xs=cx.box('xs', IS), ys=cx.box('ys', IS))
+    fr_c = FunctionContract(SRC, 'block_touches_more', 'SELFTEST', short='frame[block]', setup=lists, region=dict(start="xs.append(1)", end="return len(xs) + len(ys)"),
+                            ensures=["len(xs) == len(old(xs)) + 1"], modifies=['xs'])
+    BlockSpec.of(fr_c)
+    r9 = verify(fr_c, [fr_c], timeout_ms=2000)
+    if not any(o['name'] == 'frame:block:ys' and o['status'] != 'unsat' for o in r9.obligations):
+        failures.append('block contract: a change outside the block frame was not reported (UNSOUND): %s %s' % (r9.error, [o['name'] for o in r9.obligations]))
+    fr_ok = FunctionContract(SRC, 'block_touches_more', 'SELFTEST', short='frame-ok[block]', setup=lists, region=dict(start="xs.append(1)", end="return len(xs) + len(ys)"),
+                             ensures=["len(xs) == len(old(xs)) + 1 and len(ys) == len(old(ys)) + 1"], modifies=['xs', 'ys'])
+    r10 = verify(FunctionContract(SRC, 'block_touches_more', 'SELFTEST', setup=lists, ensures=["result == len(old(xs)) + len(old(ys)) + 2"],
+                                  blocks=[BlockSpec.of(fr_ok)], modifies=['xs', 'ys']), [fr_ok], timeout_ms=8000)
+    r11 = verify(fr_ok, [fr_ok], timeout_ms=8000)
+    n_ob += len(r10.obligations) + len(r11.obligations)
+    if not (r10.ok and r11.ok):
+        failures.append('block contract over containers: not proved: %s %s' % (r10.error or r10.failed, r11.error or r11.failed))
     runs, bad = differential(random.Random(int(os.environ.get('VERIF_SEED', '0') or 0)), int(os.environ.get('SELFTEST_N', '25')))
     for name, args, want, got in bad[:10]:
         failures.append('differential %s%r: CPython %r, interpreter %r' % (name, args, want, got))
